@@ -4,8 +4,9 @@
    only by the primitive file-system steps the code issues: open (create / truncate), one write per
    form, rename.  A crash is "stop before primitive step k"; a restart is Load / LoadExpanded.
    Clear is the code after repo fixes C20-1 (range arithmetic) and C20-2 (rewrite through
-   <file>.tmp and rename); the code before the fixes is kept as clear_range_old / rewrite_inplace
-   for the refutations. *)
+   <file>.tmp and rename), LoadExpanded the code after C20-4 (an empty line inside a form is kept);
+   the code before the fixes is kept as clear_range_old / rewrite_inplace / loadx_lines_old for the
+   refutations. *)
 From Coq Require Export List Bool Arith NArith ZArith Lia.
 Export ListNotations.
 
@@ -180,20 +181,37 @@ Inductive rres := RFull | RPartial | RErr.
 Section Reader.
 Variable rd : list byte -> rres.
 
-(* LoadExpanded over the lines of the file: empty lines are skipped; a line with TABs is split into
-   the lines of a form; the lines are collected until the reader accepts the text collected so far.
+(* LoadExpanded over the lines of the file (after repo fix C20-4): an empty line is skipped unless a form
+   has begun; a line with TABs is split into the lines of a form; the lines are collected until the
+   reader accepts the text collected so far.
    Result: the forms, and false if the reader failed (LoadExpanded panics with the forms so far). *)
 Fixpoint loadx_lines (ls : list (list byte)) (buf : list byte) (fm : form) : list form * bool :=
   match ls with
   | [] => ([], true)                                  (* an unfinished form at the end is dropped *)
-  | [] :: ls' => loadx_lines ls' buf fm
+  | l :: ls' =>
+      if match l, fm with [], [] => true | _, _ => false end then loadx_lines ls' buf fm
+      else
+        let subs := split_on TAB l in
+        let buf' := buf ++ expand subs in
+        let fm' := fm ++ subs in
+        match rd buf' with
+        | RFull => let r := loadx_lines ls' [] [] in (fm' :: fst r, snd r)
+        | RPartial => loadx_lines ls' buf' fm'
+        | RErr => ([], false)
+        end
+  end.
+(* before the fix every empty line was skipped, also inside a form that had begun *)
+Fixpoint loadx_lines_old (ls : list (list byte)) (buf : list byte) (fm : form) : list form * bool :=
+  match ls with
+  | [] => ([], true)
+  | [] :: ls' => loadx_lines_old ls' buf fm
   | l :: ls' =>
       let subs := split_on TAB l in
       let buf' := buf ++ expand subs in
       let fm' := fm ++ subs in
       match rd buf' with
-      | RFull => let r := loadx_lines ls' [] [] in (fm' :: fst r, snd r)
-      | RPartial => loadx_lines ls' buf' fm'
+      | RFull => let r := loadx_lines_old ls' [] [] in (fm' :: fst r, snd r)
+      | RPartial => loadx_lines_old ls' buf' fm'
       | RErr => ([], false)
       end
   end.
